@@ -1,2 +1,4 @@
 import Pxv.Model.Body
 import Pxv.Thm.C14
+import Pxv.Model.Domain
+import Pxv.Thm.C20
